@@ -828,7 +828,13 @@ def series_computation(
         name: linear_operator_wrapped(series) for name, series in series.items()
     }
 
+    # Precomputed start values are never deleted: re-evaluating them would bypass
+    # the start data.
+    start_indices: dict[str, set] = {}
+
     def del_(series_name, index: int) -> None:
+        if index in start_indices.get(series_name, ()):
+            return
         series[series_name].pop(index, None)
         linear_operator_series[series_name].pop(index, None)
 
@@ -856,6 +862,7 @@ def series_computation(
         exec(compile(term.definition, filename="<string>", mode="exec"), eval_scope)
 
         series_data = data.get(term.start, None)
+        start_indices[term.name] = set(series_data or ())
 
         series[term.name] = BlockSeries(
             eval=eval_scope["series_eval"],
